@@ -73,7 +73,10 @@ def apply_comp(c, comp, params):
     elif k == "loss":
         c.loss(m, _val(v, params))
     elif k == "her":
-        c.herald(int(v), m)
+        if isinstance(m, list):            # [input mode, output mode]
+            c.herald(int(v), m[0], m[1])
+        else:
+            c.herald(int(v), m)
     else:
         raise ValueError(k)
 
@@ -846,6 +849,15 @@ def gen_pool(rng, lossy, max_modes):
         hs = [o for o in twin["ops"] if o[0] == "her"]
         hs[j][2] = 1 - hs[j][2]
         pool.append(twin)
+        free_out = [mm for mm in range(n) if mm not in hm]
+        if free_out:
+            # a second twin: identical components and INPUT heralds, one herald leaves on another output mode
+            # (same U_full, same input herald dictionary, different output herald dictionary)
+            twin2 = copy.deepcopy(c0)
+            hs2 = [o for o in twin2["ops"] if o[0] == "her"]
+            j2 = rng.randrange(len(hs2))
+            hs2[j2][1] = [hs2[j2][1], rng.choice(free_out)]
+            pool.append(twin2)
     else:
         pool.append(copy.deepcopy(c0))          # an equal but distinct object
     pool.append(gen_spec(rng, n, lossy, pnames, [[m, rng.choice([0, 1])] for m in hm]))
@@ -934,7 +946,8 @@ def gen_sampler_case(rng, quick, tier):
                 m = in_modes(specs[cur])
             elif u < T[1]:
                 comp = gen_comp(rng, specs[cur]["n"], lossy, params)
-                free = [mm for mm in range(specs[cur]["n"]) if not any(o[0] == "her" and o[1] == mm for o in specs[cur]["ops"])]
+                free = [mm for mm in range(specs[cur]["n"])
+                        if not any(o[0] == "her" and (mm in o[1] if isinstance(o[1], list) else o[1] == mm) for o in specs[cur]["ops"])]
                 if len(free) >= 2 and rng.random() < 0.25:
                     # a herald added IN PLACE to the attached circuit object: the number of input modes drops,
                     # the herald-removal bookkeeping of the sampler must follow
